@@ -5,7 +5,7 @@ from .. import sym
 from ..evalfn import SELF, property_backing
 from ..sym import canon
 from . import backtest_rules, core_rules
-from .common import ALGOS, CORE, Roles, fld, short
+from .common import working_for, ALGOS, CORE, Roles, fld, short
 from .core_rules import SEC_CLASSES, is_inow
 from .extent import Extent
 
@@ -109,7 +109,11 @@ def universe_accessor(chk, pid):
                 for t in ts:
                     for el in ast.walk(t):
                         if isinstance(el, ast.Attribute) and isinstance(el.ctx, ast.Store) and el.attr in (cache, key_field):
-                            ok = (f.cls, f.name) in (("StrategyBase", "universe"), ("StrategyBase", "setup"), ("StrategyBase", "__init__"))
+                            owners = (("StrategyBase", "universe"), ("StrategyBase", "setup"), ("StrategyBase", "__init__"))
+                            ok = (f.cls, f.name) in owners
+                            if not ok:
+                                hs = working_for(chk.prog, f)  # a private helper inherits the role of the functions it works for
+                                ok = bool(hs) and all((h.cls, h.name) in owners for h in hs)
                             chk.ob("C04.R3", ok, f.module, f.qual, "cache-writer:%s" % el.attr,
                                    "the windowed-universe cache may be written only by the accessor (sliced) and by setup (which invalidates its key)", where="%s:%d" % (f.module, n.lineno),
                                    found="written in %s" % f.qual)
